@@ -573,11 +573,16 @@ func (p *Pkg) checkSplitWrites() (bool, string) {
 	}
 	isStore := func(s ast.Stmt) bool {
 		as, ok := s.(*ast.AssignStmt)
-		if !ok || len(as.Lhs) != 1 {
+		if !ok {
 			return false
 		}
-		ix, ok := as.Lhs[0].(*ast.IndexExpr)
-		return ok && identObj(info, ix.X) == sp[0] && identObj(info, ix.Index) == curr
+		// dst[curr] = … (possibly one side of `dst[curr], rest = a, b`)
+		for _, l := range as.Lhs {
+			if ix, ok := l.(*ast.IndexExpr); ok && identObj(info, ix.X) == sp[0] && identObj(info, ix.Index) == curr {
+				return true
+			}
+		}
+		return false
 	}
 	// invariant: every index < curr was written in this call. It holds when curr
 	// starts at 0 and every increment of curr is preceded (same statement list,
